@@ -27,6 +27,17 @@ pub mod mspec {
         forall|j: int| !#[trigger] pattern_at(s, j)
     }
 
+    /// a piece of a piece is a piece of the whole (flattens the nested sub-slices the parser makes)
+    pub broadcast proof fn lemma_subrange_of_suffix(s: Seq<u8>, a: int, b: int, c: int, d: int)
+        requires
+            0 <= a <= b <= s.len(),
+            0 <= c <= d <= b - a,
+        ensures
+            #[trigger] s.subrange(a, b).subrange(c, d) == s.subrange(a + c, a + d),
+    {
+        assert(s.subrange(a, b).subrange(c, d) =~= s.subrange(a + c, a + d));
+    }
+
     /// position of the first pattern occurrence (meaningful when there is one)
     pub open spec fn pat_pos(s: Seq<u8>) -> int {
         choose|k: int| first_pattern(s, k)
@@ -49,6 +60,16 @@ pub mod mspec {
         }
     }
 
+    // ---- the leaf parsers as FUNCTIONS of their input bytes (uninterpreted): what they return on
+    // success. Assumption: the leaf parsers are deterministic functions of the bytes they are
+    // given (pure code). The message-level contract states that the returned Message is assembled
+    // from exactly these values on exactly these sub-slices; what the values ARE is the business
+    // of the Kani harnesses on the leaves (c02_dec_*, c01_arg_*, inp_payload_*).
+    pub uninterp spec fn std_of(input: Seq<u8>) -> StandardHeader;
+    pub uninterp spec fn ext_of(input: Seq<u8>) -> ExtendedHeader;
+    pub uninterp spec fn sto_of(input: Seq<u8>) -> StorageHeader;
+    pub uninterp spec fn payload_of<T>(input: Seq<u8>, verbose: bool, payload_length: u16, arg_cnt: u8, msg_type: Option<MessageType>) -> PayloadContent;
+
     /// Contract of the standard-header parser (ASSUMED in this unit; proved on the real code by
     /// the Kani harnesses c02_dec_std_header (all 2^128 inputs of the maximal header size) and
     /// c02_dec_std_header_truncated (every cut)): decodes HTYP flags, consumes exactly the
@@ -62,6 +83,7 @@ pub mod mspec {
                 &&& htyp_matches(&h, input[0])
                 &&& hdr_len(&h) == all_len_of(input[0])
                 &&& hdr_len(&h) + h.payload_length == len_field(input, 0)
+                &&& h == std_of(input)
             },
             Err(Err::Incomplete(NeededE::Size(n))) => {
                 // fewer bytes than the standard header needs; the hint never exceeds what is missing
@@ -80,7 +102,7 @@ pub mod mspec {
     /// inputs + c02_dec_ext_header_truncated): consumes exactly 10 bytes, never rejects.
     pub open spec fn ext_header_post(input: Seq<u8>, r: IResult<&[u8], ExtendedHeader, DltParseError>) -> bool {
         match r {
-            Ok((rest, e)) => input.len() >= 10 && rest@ == input.subrange(10, input.len() as int),
+            Ok((rest, e)) => input.len() >= 10 && rest@ == input.subrange(10, input.len() as int) && e == ext_of(input),
             Err(Err::Incomplete(NeededE::Size(n))) => input.len() < 10 && n@ <= 10 - input.len(),
             Err(Err::Incomplete(NeededE::Unknown)) => input.len() < 10,
             Err(_) => false,
@@ -95,6 +117,7 @@ pub mod mspec {
                 &&& first_pattern(input, shift as int)
                 &&& shift as int + 16 <= input.len()
                 &&& rest@ == input.subrange(shift as int + 16, input.len() as int)
+                &&& sh == sto_of(input)
             },
             Ok((rest, None)) => input.len() >= 16 && no_pattern(input) && rest@.len() == 0,
             Err(Err::Incomplete(NeededE::Size(n))) => {
@@ -124,6 +147,46 @@ pub mod mspec {
         &&& rest.len() < input.len()
     }
 
+    /// C01 / C09 glue: the returned message is assembled from exactly what the leaf parsers
+    /// return on exactly the sub-slices the layout assigns to them: storage header from the input,
+    /// standard header at `off`, extended header right behind it iff UEH, payload = the declared
+    /// payload bytes parsed in the byte order of MSBF with the verbose flag / argument count /
+    /// message type of the extended header (false / 0 / none without one)
+    pub open spec fn assembled(input: Seq<u8>, with_storage: bool, m: Message) -> bool {
+        let off = msg_off(input, with_storage);
+        let n = input.len() as int;
+        let h = std_of(input.subrange(off, n));
+        let e = ext_of(input.subrange(off + std_len_of(input[off]), n));
+        let pbytes = input.subrange(off + all_len_of(input[off]), off + len_field(input, off));
+        let plen = h.payload_length;
+        &&& m.header == h
+        // presence only: the value is moved out by the unannotated closure `|shs| shs.0`, whose
+        // result Verus leaves unspecified (no proof code may be added to the extracted body)
+        &&& m.storage_header.is_some() == with_storage
+        &&& m.extended_header == (if h.has_extended_header { Some(e) } else { None::<ExtendedHeader> })
+        &&& m.payload == (if h.has_extended_header {
+                if h.endianness == Endianness::Big { payload_of::<BigEndian>(pbytes, e.verbose, plen, e.argument_count, Some(e.message_type)) }
+                else { payload_of::<LittleEndian>(pbytes, e.verbose, plen, e.argument_count, Some(e.message_type)) }
+            } else {
+                if h.endianness == Endianness::Big { payload_of::<BigEndian>(pbytes, false, plen, 0, None::<MessageType>) }
+                else { payload_of::<LittleEndian>(pbytes, false, plen, 0, None::<MessageType>) }
+            })
+    }
+
+    /// the filter decision is taken on exactly the parsed extended header and ECU id
+    pub open spec fn filter_verdict(input: Seq<u8>, with_storage: bool, cfg: Option<&ProcessedDltFilterConfig>) -> bool {
+        let off = msg_off(input, with_storage);
+        let n = input.len() as int;
+        let h = std_of(input.subrange(off, n));
+        let e = ext_of(input.subrange(off + std_len_of(input[off]), n));
+        let ecu: Option<&String> = match h.ecu_id { Some(s) => Some(&s), None => None };
+        if h.has_extended_header {
+            crate::fspec::spec_filtered(Some(&e), cfg, ecu)
+        } else {
+            crate::fspec::spec_filtered(None::<&ExtendedHeader>, cfg, ecu)
+        }
+    }
+
     /// payload length announced by the bytes: LEN - all headers
     pub open spec fn declared_payload(input: Seq<u8>, with_storage: bool) -> int {
         let off = msg_off(input, with_storage);
@@ -143,6 +206,15 @@ pub mod mspec {
         } else {
             off + all_len_of(input[off])
         }
+    }
+
+    /// C05, first half: the bytes end before the earliest possible end of the message they
+    /// announce (and what is readable of it is not already contradictory: LEN >= headers)
+    pub open spec fn ends_early(input: Seq<u8>, with_storage: bool) -> bool {
+        let off = msg_off(input, with_storage);
+        &&& (with_storage ==> first_pattern(input, pat_pos(input)))
+        &&& (input.len() < off + 4 || len_field(input, off) >= all_len_of(input[off]))
+        &&& input.len() < earliest_end(input, off)
     }
 
     /// C05: an `Incomplete` report with a size never asks for more than what is missing up to
